@@ -4,8 +4,10 @@ C19.b nothing reachable from the stream API stores through an htp_cfg_t / htp_de
       or lets the address of one of its fields escape as a non-const pointer
 C19.c nothing reachable from the stream API calls a libc function with hidden process-wide state
 C19.d the hook runners iterate hooks read-only"""
-from ..facts import load, S, strip, nodes, walk, root_of, AnalysisBroken
+from ..facts import load, S, strip, nodes, walk, root_of, is_lit, AnalysisBroken
 from ..report import Result
+from .. import pat as P
+from .. import cfg as C
 from .. import cfg as C
 
 LEVEL = 'other'
@@ -140,6 +142,7 @@ def run(repo='/repo', tier='quick'):
     res.assumptions += ['user callbacks do not mutate the shared configuration and keep their own state per connection',
                         "zlib's and the LZMA SDK's state is per stream object, as documented",
                         'indirect calls are resolved by slot: the set of functions ever stored into that record field (user hooks are leaves)']
+    c19g(load(repo), res)
     from . import mirror
     mirror.run(load(repo), res, 'C19.f', [('htp_config_register_request_%s' % h, 'htp_config_register_response_%s' % h, None) for h in ('body_data', 'complete', 'header_data', 'headers', 'line', 'start', 'trailer', 'trailer_data')]
                                + [('htp_tx_register_request_body_data', 'htp_tx_register_response_body_data', None), ('htp_config_set_request_decompression', 'htp_config_set_response_decompression', None)])
@@ -319,3 +322,42 @@ def run_one(res, db, tag):
                 res.violated('C19.d', tag + hn + ':' + w.split('(')[0][:60], '%s is not read-only on the hook: %s' % (hn, w), x['loc'])
         else:
             res.holds('C19.d', tag + hn, 'only htp_list_size/htp_list_get and the callback are called; no store other than to locals', f.loc)
+
+
+def c19g(db, res):
+    """The private copy of a hook must not share state with the original: htp_hook_copy() builds a fresh hook and registers
+    every callback of the source on it, so that registering on the copy never touches the shared configuration's list.
+    htp_tx_set_config() keeps the ownership flag in step with the pointer, so that a shared configuration is never destroyed
+    by a transaction and a private one is destroyed exactly when it is replaced."""
+    res.rule('C19.g', 'hook copies are deep and configuration ownership is tracked: htp_hook_copy() creates a fresh hook, registers callback->fn of every element i in [0, size) of the source on the copy (never on the source) and returns the copy; htp_tx_set_config() destroys the old configuration only under is_config_shared == PRIVATE and stores pointer and flag together')
+    f = db.get('htp_hook_copy')
+    src = f.params[0]['name']
+    cp = P.local_init_from(f, lambda e: e is not None and e.get('k') == 'call' and e.get('callee') == 'htp_hook_create')
+    regs = f.calls('htp_hook_register')
+    ok = bool(cp) and len(regs) == 1
+    if ok:
+        b, i, c = regs[0]
+        a0 = strip(c['args'][0])
+        on_copy = a0.get('k') == 'un' and a0['op'] == '&' and P.K(a0['e']) == cp
+        fn_of_elem = P.K(c['args'][1]).endswith('->fn')
+        lp = [body for h, body in C.loops(f) if b in body]
+        # the loop runs over every element: counter from 0, bound = size of the source list
+        bound = any(fc and (P.canon(fc[0]) or ('', '', ''))[1] == '<' for bb in (lp[0] if lp else []) for fc in [f.cond_of(bb)])
+        size_of_src = any(c2.get('callee') == 'htp_list_array_size' and src in P.K(c2['args'][0]) for bb, ii, c2 in f.calls('htp_list_array_size'))
+        elem_from_src = any(src in P.K(c2['args'][0]) for bb, ii, c2 in f.calls('htp_list_array_get'))
+        rets = [st for bb, ii, st in f.returns() if not is_lit(P.ret_value(st), 0)]
+        ret_copy = bool(rets) and all(P.K(P.ret_value(st)) == cp for st in rets)
+        ok = on_copy and fn_of_elem and bool(lp) and bound and size_of_src and elem_from_src and ret_copy
+        why = 'registers on %s' % P.K(a0) if not on_copy else 'does not register the element\'s fn' if not fn_of_elem else 'not in a loop over the whole source list' if not (lp and bound and size_of_src and elem_from_src) else 'does not return the copy'
+    else:
+        why = 'no fresh hook / not exactly one registration'
+    res.check(ok, 'C19.g', 'htp_hook_copy:deep', 'fresh hook; every callback of the source registered on the copy; copy returned',
+              'htp_hook_copy is not a deep copy any more (%s): a transaction that registers a callback on its private configuration changes the shared one, or loses callbacks' % why, f.loc)
+    g = db.get('htp_tx_set_config')
+    dst = g.calls('htp_config_destroy')
+    okd = len(dst) == 1 and any(a == ('tx->is_config_shared', '==', 'HTP_CONFIG_PRIVATE') for a, e in P.facts_at(g, dst[0][0]))
+    wp = P.field_writes(g, 'cfg')
+    wf = P.field_writes(g, 'is_config_shared')
+    together = len(wp) == 1 and len(wf) == 1 and wp[0][0] == wf[0][0] and P.K(wp[0][2]['r']) == g.params[1]['name'] and P.K(wf[0][2]['r']) == g.params[2]['name']
+    res.check(okd and together, 'C19.g', 'htp_tx_set_config:ownership', 'the old configuration is destroyed only when private; pointer and ownership flag are stored together from the arguments',
+              'htp_tx_set_config %s' % ('destroys the configuration it replaces without knowing that it is private (a shared configuration is freed under the other parsers)' if not okd else 'does not store the configuration pointer and its ownership flag together from its arguments'), g.loc)
